@@ -298,9 +298,18 @@ func (r *Redirect) parseAndClearFlashMessages() {
 	// parse flash messages
 	cookieValue := r.c.Cookies(FlashCookieName)
 
-	_, err := r.c.flashMessages.UnmarshalMsg(r.c.app.getBytes(cookieValue))
-	if err != nil {
-		return
+	// The slice is reused between requests and UnmarshalMsg only assigns the fields
+	// that are present in the cookie: wipe the old elements first, otherwise a
+	// message with missing fields would expose the values of an earlier request.
+	old := r.c.flashMessages[:cap(r.c.flashMessages)]
+	clear(old)
+	r.c.flashMessages = old[:0]
+
+	rest, err := r.c.flashMessages.UnmarshalMsg(r.c.app.getBytes(cookieValue))
+	if err != nil || len(rest) > 0 {
+		// not a well-formed encoding: drop the partially decoded messages
+		clear(r.c.flashMessages)
+		r.c.flashMessages = r.c.flashMessages[:0]
 	}
 }
 
